@@ -1,18 +1,24 @@
 /-
-  Driver of the `C01.decl` stream (harness/props/_decl.py): parses declared suite classes, runs the loader
-  model (`Expand.loadSuites`) and the specification (`Expand.expandSuites`), and builds the run-level task
-  graph of the expanded tree.
-    {"classes": [Cls], "nb_threads": n, "force": bool}
+  Driver of the `decl` / `declrun` streams (harness/props/_decl.py, _declrun.py): parses declared suite classes — every
+  method and class with its decorators in APPLICATION order, every class with the attribute layers of its instance —,
+  folds the decorators (`Expand.decorate`), runs the loader model (`Expand.loadSuites`) and the specification
+  (`Expand.expandSuites`), validates the dependency graph (`Expand.validate` = `Deps.resolve` on the loaded tests) and
+  builds the run-level project and task graph of the expanded tree.
+    {"classes": [Cls], "nb_threads": n, "force": bool, "keep": null | [path]}
       → {"load": {"ok": [Suite]} | {"err": [kind, text]},
          "expand": [Suite],                 -- expandSuites: what the declarations mean
          "agree": bool,                     -- load ok ⇒ same tree as expand
          "count": n,                        -- Σ expansionCount over the visible declarations
          "tasks": [path],                   -- test tasks of graphOf (projOf expand …), task-list order
-         "tests": [[path, disabledNow]]}    -- suitesTests of the expanded tree + `Run.testDisabledNow`
-  Cls  = {"attr","name"?,"desc"?,"rank","tags","props","links","disabled","hidden","tests":[Decl],"subs":[Cls]}
-  Decl = {"attr","name"?,"desc"?,"rank","tags","props","links","disabled","hidden","deps":[[str]],
-          "param": null | {"sets": [[[k, v]]], "naming": {"k":"default"} | {"k":"format","name":[Seg],"desc":[Seg]}
-                                                         | {"k":"custom","which": "idx_rev"|"vals"|"const"}}}
+         "tests": [[path, disabledNow]],    -- suitesTests of the expanded tree + `Run.testDisabledNow`
+         "resolve": {"ok": [[path, [dep path]]]} | {"err": [kind, test, dep]},     -- PreparedProject.create's verdict
+         "proj": [SuiteShape]}              -- projOf (resolvePreds expand): the run-level project, scripts left out
+  Cls  = {"attr","rank","decos":[Deco],"layers":[[ [key, Kind] ]],"tests":[Decl],"subs":[Cls]}     layers[0] = instance dict
+  Decl = {"attr","rank","args":[str],"decos":[Deco]}
+  Deco = {"k":"test","desc","name"} | {"k":"suite","desc","name","rank"} | {"k":"disabled","reason"} | {"k":"tags","tags"}
+       | {"k":"prop","key","value"} | {"k":"link","url","name"} | {"k":"hidden"} | {"k":"depends_on","args":[{"path":[str]}|{"pred":key}]}
+       | {"k":"parametrized","sets":[[[k, v]]],"naming":{"k":"default"} | {"k":"format","name":[Seg],"desc":[Seg]} | {"k":"custom","which"}}
+  Kind = {"k":"inject","name":str|null} | {"k":"method","params":[str]} | {"k":"property"} | {"k":"other"}
   Seg  = {"lit": s} | {"field": k}
   Run: `lake env lean --run drivers/Expand.lean`
 -/
@@ -80,6 +86,9 @@ def customNaming (which : String) : Except String (String → String → Params 
       (n ++ String.join (ps.map (fun kv => "_" ++ kv.2.render)),
        d ++ " with " ++ ", ".intercalate (ps.map (fun kv => kv.1 ++ "=" ++ kv.2.render))))
   | "const" => .ok (fun n d _ _ => (n, d))
+  | "first" => .ok (fun _ _ ps _ => match ps with
+      | [] => ("", "test ")
+      | kv :: _ => (kv.2.render, "test " ++ kv.2.render))
   | w => .error s!"unknown custom naming {w}"
 
 def parseNaming (j : Json) : Except String Expand.Naming := do
@@ -92,22 +101,65 @@ def parseNaming (j : Json) : Except String Expand.Naming := do
   | "custom" => do pure (.custom (← customNaming (← getStr j "which")))
   | k => throw s!"unknown naming {k}"
 
+/-- the dependency predicates the stream knows how to write in Python (harness/props/_decl.py `pred_src`) -/
+def predHolds (key : String) (p : List String) (t : Expand.Test) : Bool :=
+  match key.splitOn "=" with
+  | "path" :: rest => ".".intercalate p == "=".intercalate rest
+  | "name" :: rest => t.name == "=".intercalate rest
+  | "tag" :: rest => t.md.tags.contains ("=".intercalate rest)
+  | _ => false
+
+def parseDepArg (j : Json) : Except String DepArg :=
+  match j.getObjVal? "path" with
+  | .ok v => do pure (.path (← (← v.getArr?).toList.mapM (fun x => x.getStr?)))
+  | .error _ => do pure (.pred (← getStr j "pred"))
+
+def parseDeco (j : Json) : Except String Deco := do
+  match ← getStr j "k" with
+  | "test" => pure (.test (← getOptStr j "desc") (← getOptStr j "name"))
+  | "suite" =>
+    let rank ← (match j.getObjVal? "rank" with
+      | .error _ => pure none
+      | .ok .null => pure none
+      | .ok v => do pure (some (← v.getNat?)))
+    pure (.suite (← getOptStr j "desc") (← getOptStr j "name") rank)
+  | "disabled" => pure (.disabled (← getOptStr j "reason"))
+  | "tags" => pure (.tags (← (← getArrD j "tags").mapM (fun t => t.getStr?)))
+  | "prop" => pure (.prop (← getStr j "key") (← getStr j "value"))
+  | "link" => pure (.link (← getStr j "url") (← getOptStr j "name"))
+  | "hidden" => pure .hidden
+  | "depends_on" => pure (.dependsOn (← (← getArrD j "args").mapM parseDepArg))
+  | "parametrized" =>
+    let sets ← (← getArrD j "sets").mapM parseParams
+    let n ← parseNaming (← j.getObjVal? "naming")
+    pure (.parametrized sets n)
+  | k => throw s!"unknown decorator {k}"
+
 def parseDecl (j : Json) : Except String Expand.TestDecl := do
-  let param ← (match j.getObjVal? "param" with
-    | .error _ => pure none
-    | .ok .null => pure none
-    | .ok p => do
-      let sets ← (← getArrD p "sets").mapM parseParams
-      let n ← parseNaming (← p.getObjVal? "naming")
-      pure (some (sets, n)))
-  let deps ← (← getArrD j "deps").mapM (fun d => do (← d.getArr?).toList.mapM (fun x => x.getStr?))
-  pure { attr := ← getStr j "attr", name := ← getOptStr j "name", desc := ← getOptStr j "desc", rank := ← getNat j "rank",
-         md := ← parseMeta j, disabled := ← parseDisabled j, hidden := ← getBoolD j "hidden", deps := deps, param := param }
+  let args ← (← getArrD j "args").mapM (fun x => x.getStr?)
+  let decos ← (← getArrD j "decos").mapM parseDeco
+  pure (decorate (← getStr j "attr") (← getNat j "rank") args decos)
+
+def parseKind (j : Json) : Except String SuiteObj.AttrKind := do
+  match ← getStr j "k" with
+  | "inject" => pure (.inject (← getOptStr j "name"))
+  | "method" => pure (.method (← (← getArrD j "params").mapM (fun x => x.getStr?)))
+  | "property" => pure .property
+  | _ => pure .other
+
+def parseLayer (j : Json) : Except String SuiteObj.Layer := do
+  (← j.getArr?).toList.mapM (fun kv => do
+    let (k, v) ← parsePair kv
+    pure (← k.getStr?, ← parseKind v))
+
+def parseObj (j : Json) : Except String SuiteObj.Obj := do
+  match ← (← getArrD j "layers").mapM parseLayer with
+  | [] => pure {}
+  | inst :: mro => pure { inst := inst, mro := mro }
 
 partial def parseCls (j : Json) : Except String SuiteDecl := do
-  let h : Expand.ClsHead :=
-    { attr := ← getStr j "attr", name := ← getOptStr j "name", desc := ← getOptStr j "desc", rank := ← getNat j "rank",
-      md := ← parseMeta j, disabled := ← parseDisabled j, hidden := ← getBoolD j "hidden" }
+  let decos ← (← getArrD j "decos").mapM parseDeco
+  let h := decorateCls (← getStr j "attr") (← getNat j "rank") (← parseObj j) decos
   let tests ← (← getArrD j "tests").mapM parseDecl
   let subs ← (← getArrD j "subs").mapM parseCls
   pure (.mk h tests subs)
@@ -134,15 +186,50 @@ def jPVal : PVal → Json
 
 def jPath (p : List String) : Json := Json.arr (p.map Json.str).toArray
 
+def jDep : DepArg → Json
+  | .path p => jPath p
+  | .pred k => Json.arr #[.str "<pred>", .str k]
+
+def jStrs (l : List String) : Json := Json.arr (l.map Json.str).toArray
+
 def jTest (t : Expand.Test) : Json :=
   Json.mkObj ([("name", .str t.name), ("desc", .str t.desc), ("rank", Json.num t.rank), ("disabled", jDisabled t.disabled),
-               ("deps", Json.arr (t.deps.map jPath).toArray),
-               ("params", Json.arr (t.params.map (fun (k, v) => Json.arr #[.str k, jPVal v])).toArray)] ++ jMeta t.md)
+               ("deps", Json.arr (t.deps.map jDep).toArray),
+               ("params", Json.arr (t.params.map (fun (k, v) => Json.arr #[.str k, jPVal v])).toArray),
+               ("fixtures", jStrs t.fixtures)] ++ jMeta t.md)
+
+def jHooks (h : Expand.SuiteHead) : Json :=
+  Json.mkObj ((match h.setupSuite with | some ps => [("setup_suite", jStrs ps)] | none => []) ++
+              (if h.teardownSuite then [("teardown_suite", jStrs [])] else []) ++
+              (if h.setupTest then [("setup_test", jStrs ["test"])] else []) ++
+              (if h.teardownTest then [("teardown_test", jStrs ["test", "status"])] else []))
 
 partial def jSuite : Expand.Suite → Json
   | .mk h ts ss =>
     Json.mkObj ([("name", .str h.name), ("desc", .str h.desc), ("rank", Json.num h.rank), ("disabled", jDisabled h.disabled),
+                 ("injected", Json.arr (h.injected.map (fun (f, as) => Json.arr #[.str f, jStrs as])).toArray), ("hooks", jHooks h),
                  ("tests", Json.arr (ts.map jTest).toArray), ("suites", Json.arr (ss.map jSuite).toArray)] ++ jMeta h.md)
+
+/-- the run-level project syntax, scripts left out (harness/props/_declrun.py `project_shape`) -/
+partial def jSpec : Run.SuiteSpec → Json
+  | s =>
+    let hooks := (match s.setupSuite with | some (ps, _) => [("setup_suite", jStrs ps)] | none => []) ++
+                 (if s.teardownSuite.isSome then [("teardown_suite", jStrs [])] else []) ++
+                 (if s.setupTest.isSome then [("setup_test", jStrs ["test"])] else []) ++
+                 (if s.teardownTest.isSome then [("teardown_test", jStrs ["test", "status"])] else [])
+    Json.mkObj [("name", .str s.name), ("disabled", .bool s.disabled), ("injected", jStrs s.injected), ("hooks", Json.mkObj hooks),
+                ("tests", Json.arr (s.tests.map (fun t => Json.mkObj [("name", .str t.name), ("disabled", .bool t.disabled),
+                    ("reason", .bool t.disabledReason), ("deps", Json.arr (t.deps.map jPath).toArray), ("fixtures", jStrs t.fixtures)])).toArray),
+                ("suites", Json.arr (s.subs.map jSpec).toArray)]
+
+def undot (s : String) : List String := s.splitOn "."
+
+def jResolve : Except Deps.Err (List (String × List String)) → Json
+  | .ok l => Json.mkObj [("ok", Json.arr (l.map (fun (p, ds) => Json.arr #[jPath (undot p), Json.arr (ds.map (fun d => jPath (undot d))).toArray])).toArray)]
+  | .error (.unknown t d) => Json.mkObj [("err", Json.arr #["unknown", .str t, .str d])]
+  | .error (.circular t d) => Json.mkObj [("err", Json.arr #["circular", .str t, .str d])]
+  | .error (.notScheduled t d) => Json.mkObj [("err", Json.arr #["notScheduled", .str t, .str d])]
+  | .error .outOfFuel => Json.mkObj [("err", Json.arr #["outOfFuel", .str "", .str ""])]
 
 def jErr : LoadErr → Json
   | .importError s => Json.arr #["importError", .str s]
@@ -174,7 +261,13 @@ def handle (j : Json) : Except String Json := do
       | none => false
     Json.arr #[jPath p, .bool dn])
   let count := ((classes.filter (fun c => !c.head.hidden)).map declCount).sum
+  let keep ← (match j.getObjVal? "keep" with
+    | .error _ => pure none
+    | .ok .null => pure none
+    | .ok v => do pure (some (← (← v.getArr?).toList.mapM (fun p => do (← p.getArr?).toList.mapM (fun x => x.getStr?)))))
+  let resolveJ := jResolve (validate predHolds expanded keep)
+  let projJ := Json.arr ((toSpecs (resolvePreds predHolds expanded)).map jSpec).toArray
   pure (Json.mkObj [("load", loadJ), ("expand", expJ), ("agree", .bool agree), ("count", Json.num count),
-                    ("tasks", Json.arr tasks.toArray), ("tests", Json.arr tests.toArray)])
+                    ("tasks", Json.arr tasks.toArray), ("tests", Json.arr tests.toArray), ("resolve", resolveJ), ("proj", projJ)])
 
 def main : IO Unit := loop (wrap handle)
